@@ -499,6 +499,18 @@ def _isnan(x):
     return isinstance(x, float) and x != x
 
 
+def _is_arr(o):
+    return type(o).__module__ == 'numpy' and type(o).__name__ == 'ndarray'
+
+
+def _elementwise(o, f):
+    import numpy as np
+    out = np.empty(o.shape, dtype=object)
+    for idx in np.ndindex(o.shape):
+        out[idx] = f(o[idx])
+    return out
+
+
 def lift(x):
     if isinstance(x, Sym):
         if type(x) is not Sym:
@@ -590,6 +602,8 @@ class Sym:
 
     # arithmetic
     def __add__(s, o, sg=1):
+        if _is_arr(o):
+            return _elementwise(o, lambda v: v + s if sg == 1 else s - v)
         if _num_nan(o):
             return float('nan')
         o = lift(o)
@@ -605,6 +619,8 @@ class Sym:
         return s.__add__(o, -1)
 
     def __rsub__(s, o):
+        if _is_arr(o):
+            return _elementwise(o, lambda v: v - s)
         if _num_nan(o):
             return float('nan')
         o = lift(o)
@@ -613,6 +629,8 @@ class Sym:
         return o.__add__(s, -1)
 
     def __mul__(s, o):
+        if _is_arr(o):
+            return _elementwise(o, lambda v: v * s)
         if _num_nan(o):
             return float('nan')
         o = lift(o)
@@ -635,6 +653,8 @@ class Sym:
         return bool(SymBool(_rel(s.n, 'eq'), s.n, True))
 
     def __truediv__(s, o):
+        if _is_arr(o):
+            return _elementwise(o, lambda v: s / v)
         if _num_nan(o):
             return float('nan')
         o = lift(o)
@@ -659,6 +679,8 @@ class Sym:
         return Sym.make(p_scale(o.d, -1), p_scale(o.n, -1))
 
     def __rtruediv__(s, o):
+        if _is_arr(o):
+            return _elementwise(o, lambda v: v / s)
         if _num_nan(o):
             return float('nan')
         o = lift(o)
@@ -803,6 +825,12 @@ class Sym:
 
     def ceil(s):
         return -((-s).floor())
+
+    def rint(s):
+        """numpy's round-half-even on a concrete value; floor(x + 1/2) otherwise (they differ only on exact .5 ties)"""
+        if s.is_concrete():
+            return lift(round(s.const()))
+        return (s + Fraction(1, 2)).floor()
 
     def sqrt(s):
         if s.is_concrete():
